@@ -533,7 +533,19 @@ impl<'a> TokenLexer<'a> {
         let Some(end_pos) = input[skip_bytes..].find('}') else {
             return Token::Error;
         };
-        self.advance_line(end_pos + skip_bytes);
+        // The format options can contain multi-byte characters and newlines (e.g. as the fill
+        // character), so the end position needs to be tracked per character.
+        let options_bytes = end_pos + skip_bytes;
+        let mut position = self.current_position();
+        for c in input[..options_bytes].chars() {
+            if c == '\n' {
+                position.line += 1;
+                position.column = 0;
+            } else {
+                position.column += c.width().unwrap_or(0) as u32;
+            }
+        }
+        self.advance_to_position(options_bytes, position);
         self.string_mode_stack.pop(); // StringMode::TemplateExprFormat
         Token::StringLiteral
     }
